@@ -6,7 +6,9 @@
    Input (JSON): mode = "exprs": alpha, n, part ("small": all trees with < n nodes, or "rooted": exactly n
                                    nodes and root kind in roots), vals
                  mode = "trees": trees (given explicitly: seeded random larger trees, replay), names, vals
-                 mode = "gens":  alpha, n, vals  (generator shells)  or trees given explicitly *)
+                 mode = "gens":  alpha, n, part, parts, vals  (generator shells)
+                 mode = "derivs" / "genderivs": derivations over the alphabet (seeded random larger trees)
+                 mode = "gentrees": generator trees given explicitly (replay);  mode = "count": sizes and alphabet *)
 EXTENDS PyExpr, Json, IOUtils
 
 In == JsonDeserialize(IOEnv.IN)
@@ -86,6 +88,12 @@ GenShellSeq(A, n) ==
                   IN [i \in 1 .. Len(ss) |-> Gen2(ss[i], n1, n2, it)]
     IN CatRange(One, 0, 2) \o CatRange(Two, 0, 17)
 
+(* a generator from a derivation [elt |-> d, c1 |-> <<d, ...>>, two |-> "y" or "n", it |-> 1 or 2, c2 |-> <<d, ...>>] *)
+BuildGen(A, gd) ==
+    LET Bd(d) == Build(A, d, 1)[1]
+        cl1 == <<"x", N("T"), [i \in 1 .. Len(gd.c1) |-> Bd(gd.c1[i])]>>
+    IN <<"Gen", Bd(gd.elt), IF gd.two = "y" THEN <<cl1, <<"y", Iter2[gd.it], [i \in 1 .. Len(gd.c2) |-> Bd(gd.c2[i])]>>>> ELSE <<cl1>>>>
+
 (* truth table of a clause's filter: TRUE / FALSE / abort *)
 CondTable(ifs, envs) == [idx \in 1 .. Len(envs) |-> Out(CondVal(ifs, 1, envs[idx]))]
 
@@ -118,6 +126,14 @@ Result ==
                 ET == EnvTable(A.names, ValueSets[In.vals])
                 gs == Slice(GenShellSeq(A, In.n))
             IN [i \in 1 .. Len(gs) |-> GenRow(gs[i], A.names, ET)]
+      [] In.mode = "derivs" ->      \* trees given as derivations over the alphabet (seeded random larger trees)
+            LET A == Alphabets[In.alpha]
+                ET == EnvTable(A.names, ValueSets[In.vals])
+            IN [i \in 1 .. Len(In.derivs) |-> Row(Build(A, In.derivs[i], 1)[1], A.names, ET)]
+      [] In.mode = "genderivs" ->
+            LET A == Alphabets[In.alpha]
+                ET == EnvTable(A.names, ValueSets[In.vals])
+            IN [i \in 1 .. Len(In.derivs) |-> GenRow(BuildGen(A, In.derivs[i]), A.names, ET)]
       [] In.mode = "gentrees" ->
             LET ET == EnvTable(In.names, ValueSets[In.vals]) IN [i \in 1 .. Len(In.trees) |-> GenRow(In.trees[i], In.names, ET)]
       [] In.mode = "count" ->      \* sizes of the spaces; distinct = cardinality of the set (the enumeration may list a tree twice)
@@ -125,7 +141,7 @@ Result ==
             <<[exprs |-> Len(ExprSeq(A, In.n)),
                distinct |-> IF In.distinct THEN Cardinality(Exprs(A, In.n)) ELSE 0,
                gens |-> IF In.gn >= 0 THEN Len(GenShellSeq(A, In.gn)) ELSE 0,
-               un |-> A.un, bin |-> A.bin, ter |-> A.ter, names |-> A.names]>>
+               un |-> A.un, bin |-> A.bin, ter |-> A.ter, names |-> A.names, nconsts |-> Len(A.consts)]>>
 
 ASSUME JsonSerialize(IOEnv.OUT, [rows |-> Result])
 =============================================================================
